@@ -5,6 +5,7 @@ import (
 	"sync"
 
 	"github.com/elliotchance/orderedmap/v3"
+	"github.com/mitchellh/hashstructure/v2"
 	"gopkg.in/yaml.v3"
 
 	"github.com/go-task/task/v3/errors"
@@ -42,6 +43,18 @@ func (vars *Vars) Len() int {
 	defer vars.mutex.RUnlock()
 	vars.mutex.RLock()
 	return vars.om.Len()
+}
+
+// Hash implements hashstructure.Hashable. The variables live in unexported
+// fields, which hashstructure skips, so without this method two tasks that
+// differ only in their variables (env, vars passed on to sub-calls) would hash
+// to the same value. The order of the variables does not take part in the hash.
+func (vars *Vars) Hash() (uint64, error) {
+	m := make(map[string]Var, vars.Len())
+	for k, v := range vars.All() {
+		m[k] = v
+	}
+	return hashstructure.Hash(m, hashstructure.FormatV2, nil)
 }
 
 // Get returns the value the the variable with the provided key and a boolean
